@@ -235,6 +235,14 @@ func runCrashChild(cfg runCfg, emit func(Case)) error {
 		case "create":
 			_ = h.CreateDataStore(ctxBg, dsName(st.Coll))
 		case "drop":
+			if st.Fresh {
+				// through a handle that has opened no collection
+				if fh, err := rosmar.OpenBucket(k.url, p.Name, rosmar.CreateOrOpen); err == nil {
+					_ = fh.DropDataStore(dsName(st.Coll))
+					fh.Close(ctxBg)
+					break
+				}
+			}
 			_ = h.DropDataStore(dsName(st.Coll))
 		case "putddoc", "delddoc", "view":
 			col, err := k.coll(0, st.Coll)
